@@ -164,14 +164,15 @@ static std::string table_text(const Impl &impl, int ret, std::string *violation,
       if (vc[v] == 0xFFFFFFFFu) *violation = "vertex " + S(v) + " below the returned count is isolated";
       else if (vc[v] >= (uint32_t)nc || c2v[vc[v]] != (uint32_t)v) *violation = "left-most corner of vertex " + S(v) + " is not a corner of it";
     }
-    // opposite corners share their edge: holds for every pair made by a symbol; an interior START face is glued to
-    // whatever three boundary edges LeftMostCorner leads to, without comparing vertices (counted, not a failure)
+    // opposite corners share their edge: for every pair made by a symbol (searched here) and, since the decoder tests
+    // Vertex(Previous(corner_a)) == vert_p (/repo a3a73f7, defect D24), for every interior START face as well
+    // (C03_eb_start_faces_share_edges: the start-face phase preserves the property); any mismatch is a failure now
     for (int c = 0; c < nc && violation->empty(); c++) {
       uint32_t o = opp[c];
       if (o == 0xFFFFFFFFu || o >= (uint32_t)nc) continue;
       if (c2v[nx(c)] != c2v[pv(o)] || c2v[pv(c)] != c2v[nx(o)]) {
         if ((int)(c / 3) < num_symbols && (int)(o / 3) < num_symbols) *violation = "opposite corners of two SYMBOL faces do not share their edge at corner " + S(c);
-        else if (edge_mismatch_at_start_face) *edge_mismatch_at_start_face = true;
+        else { *violation = "opposite corners at an interior START face do not share their edge at corner " + S(c); if (edge_mismatch_at_start_face) *edge_mismatch_at_start_face = true; }
       }
     }
   }
@@ -670,7 +671,9 @@ int main(int argc, char **argv) {
       f.full = true; f.b = (int64_t)std::count(f.syms.begin(), f.syms.end(), 1u); f.a = valid[i].a - f.b; if (f.a < 0) continue;
       make_encodable(f); f.natt = 1 + (int)r.below(2); f.seam_seed = r.next(); f.seam_pct = (int)r.range(0, 100); hs.push_back(f);
     } }
-  // the two witnesses of Properties_EB.v (C03_eb_*_refuted) as well-formed 2.2 headers through the real DecodeConnectivity()
+  // the witnesses of Properties_EB.v as well-formed 2.2 headers through the real DecodeConnectivity(): E,L,L / E,L + interior start
+  // face on non-matching edges (accepted until /repo a3a73f7, now rejected by model and decoder: eb_misglued_start_face_rejected)
+  // and C03_eb_degenerate_faces_refuted (E,S + split event: still accepted)
   { Script s; s.full = true; s.a = 5; s.nf = 4; s.b = 0; s.syms = {7, 3, 3}; s.bits.assign(5, true); hs.push_back(s);
     Script d; d.full = true; d.a = 3; d.nf = 2; d.b = 1; d.syms = {7, 1}; d.evs = {{1, 0, 1}}; d.bits.assign(2, false); hs.push_back(d);
     Script e; e.full = false; e.a = 9; e.nf = 3; e.b = 1; e.syms = {7, 3}; e.bits.assign(4, true); hs.push_back(e); }
